@@ -49,6 +49,13 @@ def run(chk, repo, tier):
     chk.clause('C15-o', 'sampling, integrating and binning leave the spectrum untouched', 3)
     from .common import operands_untouched
     operands_untouched(chk, repo, 'C15-o', ['radiometry.Spectrum.sample', 'radiometry.Spectrum.integrate', 'radiometry.Spectrum.bin', 'radiometry.Spectrum.ends'], allow=[])
+    # bin / sample / resample in another wavelength unit work on a converted copy: the factors between units
+    from . import c14 as _c14_15
+    from .common import Remap as _Remap15
+    from ..resilient import run_nested as _run_nested15
+    nd15 = list(chk.not_decided)
+    _run_nested15(_c14_15, _Remap15(chk, {'C14-a': 'C15-c', 'C14-c': 'C15-c'}), repo, tier, 'wave_unit_rules')
+    chk.not_decided[:] = nd15
     chk.clause('C15-a', 'the grid stays strictly increasing: three validations dominate the store; every grid write goes through the setter', 5)
     chk.clause('C15-b', 'one value per wavelength: wave and value are updated together with twin right-hand sides', 6)
     chk.clause('C15-c', 'retained samples are not altered: selections / stacking of the original arrays only', 5)
@@ -61,6 +68,23 @@ def run(chk, repo, tier):
     from .common import self_delegation_forwards
     self_delegation_forwards(chk, repo, 'C15-e', [f'{SPEC}.bin'])
     sample_keyword_rule(chk, repo, 'C15-e')
+    # both quadrature branches of bin sample the edges with the caller's interpolation options: an option that one branch
+    # forwards and the other leaves to sample()'s default makes the two rules disagree beyond the data range
+    fb_ = repo.func(f'{SPEC}.bin')
+    opts_ = [o for o in ('fill_value', 'waveunit') if o in fb_.param_names()]
+    dropped, ns_ = [], 0
+    for n_ in ast.walk(fb_.node):
+        if isinstance(n_, ast.Call) and isinstance(n_.func, ast.Attribute) and n_.func.attr == 'sample' and \
+                isinstance(n_.func.value, ast.Name) and n_.func.value.id == 'self':
+            ns_ += 1
+            if any(k.arg is None for k in n_.keywords):
+                continue
+            given_ = {k.arg for k in n_.keywords}
+            for o in opts_:
+                if o not in given_ and len(n_.args) < 2:
+                    dropped.append(f'`{o}` is not handed to self.sample at {fb_.loc(n_)}')
+    chk.ob('C15-e', 'N-sibling', fb_.key, 'every sample() call of bin forwards fill_value and waveunit', (not dropped) if ns_ else None,
+           '; '.join(dropped[:2]), fb_.loc())
     cls = repo.cls(SPEC)
     # ---------------------------------------------------------------- C15-a
     setter = cls.find_setter('wave')
